@@ -724,7 +724,7 @@ def run_streams(ctx):
     else:
         n_ok, n_bad = (220, 260) if quick else (6000, 8000)
         cases = hand_written_cases() + [gen_case(r, False) for _ in range(n_ok)] + [gen_case(r, True) for _ in range(n_bad)]
-    load_fail, plan_fail, read_fail, prop_fail = [], [], [], []
+    load_fail, plan_fail, read_fail, prop_fail, finding_fail = [], [], [], [], []
     stats = {'cases': 0, 'unmodelled_values': 0, 'load_ok': 0, 'load_errors': {}, 'plans_with_calls': 0, 'plan_errors': {}, 'calls': 0,
              'sources_resolved': 0, 'sources_generic': 0, 'sources_special': 0, 'sources_supplemental_truthy': 0, 'settings_of_other_type': 0,
              'rules_file': {}, 'warnings': {}, 'second_path_taken': 0, 'read_probes': 0, 'read_errors': 0}
@@ -790,6 +790,18 @@ def run_streams(ctx):
                     ip = {'ok': ip['calls']}
                 if quiet:
                     ipq = ip
+                elif mp == {'err': 'KeyError', 'loaded': True} and o.get('plan_verbose', {}).get('site') == 'key_error:name':
+                    # finding F11-name (notes/config_notes.md): a source WITHOUT `name:` that gets past the file lookup kills a run without --quiet
+                    # (`source['name']` on a progress line).  The model has the defect; a repaired implementation does what it does with --quiet.
+                    nameless = {'class': 'nameless-source-stops-the-run-without-quiet', 'config_case': w['case'], 'observed': ip,
+                                'required': 'the run goes on as with --quiet', 'with_quiet': ipq}
+                    if ip == mp:
+                        stats['F11_name_defect_present'] = stats.get('F11_name_defect_present', 0) + 1
+                        finding_fail.append(nameless)
+                        continue
+                    if ip == ipq:
+                        stats['F11_name_repaired'] = stats.get('F11_name_repaired', 0) + 1
+                        continue
                 if ip != mp:
                     plan_fail.append({'config_case': w['case'], 'quiet': quiet, 'settings_as_loaded': w['settings'], 'model': mp, 'implementation': ip})
                     break
@@ -838,7 +850,7 @@ def run_streams(ctx):
     res['load'] = (load_fail, stats['cases'])
     res['plan'] = (plan_fail, stats['load_ok'])
     res['read'] = (read_fail, stats['read_probes'])
-    return res, stats, prop_fail
+    return res, stats, prop_fail, finding_fail
 
 
 def search(ctx, budget=1200):
